@@ -1,4 +1,4 @@
-package main
+package c05
 
 // C05 direct oracles on the real loader (whole loads through core.LoadReq).
 //
